@@ -5640,3 +5640,12 @@ void* picture_decision_kernel(void *input_ptr)
     return NULL;
 }
 // clang-format on
+
+#ifdef SVT_AV1_VERIF
+/* verification hook H7: exported one-line wrapper around this unit's static
+ * order-hint distance helper (white-box harness /verif/harness/reldist.c). */
+int svt_verif_get_relative_dist_picdec(const OrderHintInfo *oh, int a, int b);
+int svt_verif_get_relative_dist_picdec(const OrderHintInfo *oh, int a, int b) {
+    return get_relative_dist(oh, a, b);
+}
+#endif /* SVT_AV1_VERIF */
